@@ -31,6 +31,19 @@ FILTER_5LEAVES = [
 ]
 
 
+def all_but(depth, dropped):
+    """Every position of levels 1..depth except those listed (and nothing below them): a filter for a TOAST pyramid
+    with a leaf count that is not a power of four."""
+    dropped = set(tuple(d) for d in dropped)
+    out = []
+    for n in range(1, depth + 1):
+        for y in range(2**n):
+            for x in range(2**n):
+                if not any((m, x >> (n - m), y >> (n - m)) in dropped for m in range(1, n + 1)):
+                    out.append((n, x, y))
+    return out
+
+
 class InjectedFault(RuntimeError):
     pass
 
@@ -457,8 +470,8 @@ class _TileStage(StageHarness):
         return vals
 
     def at_terminal(self, sched, mon):
-        # which images made it into the tiles?
-        vals = self._values_present(sched.root)
+        # which images made it into the tiles?  (of the last call, when the stage is run more than once)
+        vals = self._values_present(os.path.join(sched.root, "second") if getattr(self, "twice", False) else sched.root)
         for i in range(self.nimg):
             if float(i + 1) in vals:
                 mon.delivered[(i,)] = 1
@@ -622,8 +635,14 @@ class MultiTan(_TileStage):
         mon = DeliveryMonitor()
         W = self.W
 
+        twice = getattr(self, "twice", False)
+
         def main():
-            if W == 1:
+            if twice:
+                # the same processor object tiles the same inputs into two pyramids, one after the other
+                proc.tile(PyramidIO(os.path.join(root, "first"), default_format=self.fmt), parallel=W)
+                proc.tile(PyramidIO(os.path.join(root, "second"), default_format=self.fmt), parallel=W)
+            elif W == 1:
                 proc._tile_parallel(pio, False, 1)
                 pio.clean_lockfiles(proc._tiling._tile_levels)
             else:
